@@ -1,5 +1,6 @@
 import MpVerif.C16.LemmasFinal
 import MpVerif.C16.LemmasStatus
+import MpVerif.C16.LemmasGen
 import MpVerif.Gen.GslSkel
 /-!
 # C16 — GSL bindings return consistent derivatives or an explicit error
@@ -31,7 +32,7 @@ derivatives (special-function identities are not available in Mathlib) — explo
 numerically by `harness/h_gsl.cc` only; termination/safety of GSL itself (outside the model).
 -/
 namespace MpVerif.C16
-open MpVerif.Gen.GslSkel
+open MpVerif.Gen.GslSkel MpVerif.Gen.GslHelpers
 
 /-- the conclusion of the discipline theorem for one finished call -/
 def NoSilentNaN (a : Args) (m : Mode) (s : St) : Prop :=
@@ -98,8 +99,7 @@ theorem C16_failed_check_sets_error (o : Oracle) (a : Args) (m : Mode) (e : Env)
   | intArg i => exact (checkIntArg_ok a m _ s).fail h
   | uintArg i => exact (checkUintArg_ok a m _ s).fail h
   | zeroFunc i => exact (checkZeroFuncArgs_ok a m _ s).fail h
-  | derivArg => exact (checkDerivArg_ok o s).fail h
-  | bessel => exact (checkBesselArgs_ok o a m s).fail h
+  | bessel f => exact (checkBesselArgs_ok a m f s).fail h
   | coupling => exact (checkCouplingFrom_ok a m a.n 0 s).fail h
 
 
@@ -126,11 +126,98 @@ theorem C16_status_checked (e : Entry) (he : e ∈ registered) (o : Oracle) (a :
   rw [List.all_eq_true] at h
   exact C16_status_guard_sound e.body (h e he) o a m
 
+
+/-! ### the helper bodies, translated from the source, are the hand models (`C16_gen_*`)
+
+`MpVerif.Gen.GslHelpers.h_*` are regenerated on every run from the C bodies of the twelve helpers.  Each theorem says:
+running the translated body (`hrun`) gives exactly (return value, resulting arglist state) of the hand model used by
+`run`, the analysis and every theorem above — so those theorems are about the helpers as they are in the source now. -/
+
+theorem C16_gen_error (a : Args) (m : Mode) (pr : HPar) (s : St) : hrun h_error a m pr s = (true, s.argError) := gen_error a m pr s
+theorem C16_gen_eval_error (a : Args) (m : Mode) (pr : HPar) (s : St) : hrun h_eval_error a m pr s = (true, s.evalError) := gen_eval_error a m pr s
+theorem C16_gen_deriv_error (a : Args) (m : Mode) (pr : HPar) (s : St) : hrun h_deriv_error a m pr s = (true, s.derivError) := gen_deriv_error a m pr s
+theorem C16_gen_check_deriv_arg (a : Args) (m : Mode) (arg lo hi : Int) (s : St) :
+    hrun h_check_deriv_arg a m (parDeriv arg lo hi) s = checkDerivArg arg lo hi s := gen_check_deriv_arg a m arg lo hi s
+theorem C16_gen_check_args (a : Args) (m : Mode) (pr : HPar) (s : St) : hrun h_check_args a m pr s = checkArgs a s := gen_check_args a m pr s
+/-- (the C code indexes `al->dig[index]` without a bound; the equality is for indices of existing arguments) -/
+theorem C16_gen_check_const_arg (a : Args) (m : Mode) (i : Nat) (hi : i < a.n) (s : St) :
+    hrun h_check_const_arg a m (parIdx i) s = checkConstArg a i s := gen_check_const_arg a m i hi s
+theorem C16_gen_check_int_arg (a : Args) (m : Mode) (i : Nat) (s : St) :
+    hrun h_check_int_arg a m (parIdx i) s = checkIntArg a m i s := gen_check_int_arg a m i s
+theorem C16_gen_check_uint_arg (a : Args) (m : Mode) (i : Nat) (s : St) :
+    hrun h_check_uint_arg a m (parIdx i) s = checkUintArg a m i s := gen_check_uint_arg a m i s
+theorem C16_gen_check_zero_func_args (a : Args) (m : Mode) (i : Nat) (s : St) :
+    hrun h_check_zero_func_args a m (parIdx i) s = checkZeroFuncArgs a m i s := gen_check_zero_func_args a m i s
+theorem C16_gen_check_bessel_args (a : Args) (m : Mode) (flag : Bool) (s : St) :
+    hrun h_check_bessel_args a m (parFlag flag) s = checkBesselArgs a m flag s := gen_check_bessel_args a m flag s
+theorem C16_gen_check_coupling_args (a : Args) (m : Mode) (pr : HPar) (s : St) :
+    hrun h_check_coupling_args a m pr s = checkCouplingArgs a m s := gen_check_coupling_args a m pr s
+theorem C16_gen_check_result (a : Args) (m : Mode) (rnan : Bool) (s : St) :
+    hrun h_check_result a m (parRes rnan) s = (true, checkResult a m rnan s) := gen_check_result a m rnan s
+
+theorem checkDerivArg_true {x lo hi : Int} {s : St} (h : (checkDerivArg x lo hi s).1 = true) : lo ≤ x ∧ x ≤ hi := by
+  unfold checkDerivArg at h
+  split at h
+  · cases h
+  · split at h
+    · cases h
+    · constructor <;> omega
+
+/-- **Integer range logic of `check_bessel_args`**: when it accepts and derivatives are requested, the order n = (int)ra[0]
+satisfies deriv_min ≤ n ≤ INT_MAX − 1 (so n + 1, and n − 1 unless DERIV_INT_MIN was given, are ints), and with the
+Hessian requested INT_MIN + 2 ≤ n ≤ INT_MAX − 2 (so n ± 2 are ints): the Bessel derivative formulas cannot overflow. -/
+theorem C16_bessel_order_in_range (a : Args) (m : Mode) (flag : Bool) (s : St)
+    (h : (checkBesselArgs a m flag s).1 = true) (hd : m.derivs = true) :
+    derivMin flag ≤ a.raInt 0 ∧ a.raInt 0 ≤ intMax - 1 ∧ (m.hes = true → intMin + 2 ≤ a.raInt 0 ∧ a.raInt 0 ≤ intMax - 2) := by
+  unfold checkBesselArgs at h
+  obtain ⟨_, heq⟩ := thenChk_true h
+  rw [heq, hd] at h
+  simp only [if_true] at h
+  cases hh : m.hes with
+  | false =>
+    rw [hh] at h
+    simp only [Bool.false_eq_true, if_false] at h
+    obtain ⟨h1, _⟩ := thenChk_true h
+    have := checkDerivArg_true h1
+    exact ⟨this.1, this.2, fun hc => by cases hc⟩
+  | true =>
+    rw [hh] at h
+    simp only [if_true] at h
+    obtain ⟨h1, heq1⟩ := thenChk_true h
+    rw [heq1] at h
+    obtain ⟨h2, _⟩ := thenChk_true h
+    have b1 := checkDerivArg_true h1
+    have b2 := checkDerivArg_true h2
+    exact ⟨b2.1, b2.2, fun _ => b1⟩
+
+/-- loop variables used as indices are always bound by an enclosing `for` (so `Env.get`'s default is never what decides) -/
+def Idx.scoped (bound : List Nat) : Idx → Bool
+  | .k _ => true
+  | .v x => bound.contains x
+def Chk.scoped (bound : List Nat) : Chk → Bool
+  | .constArg i | .intArg i | .uintArg i | .zeroFunc i => i.scoped bound
+  | _ => true
+def Cond.scoped (bound : List Nat) : Cond → Bool
+  | .dig i => i.scoped bound
+  | .not c => c.scoped bound
+  | .and a b | .or a b => a.scoped bound && b.scoped bound
+  | .chk c => c.scoped bound
+  | _ => true
+def Stmt.scoped (bound : List Nat) : Stmt → Bool
+  | .wd i | .wh i => i.scoped bound
+  | .setb _ c | .eval c => c.scoped bound
+  | .ite c t f => c.scoped bound && t.scoped bound && f.scoped bound
+  | .seq a b => a.scoped bound && b.scoped bound
+  | .for_ x _ body => body.scoped (x :: bound)
+  | _ => true
+set_option maxRecDepth 100000 in
+theorem C16_all_registered_well_scoped : registered.all (fun e => e.body.scoped []) = true := by decide +kernel
+
 /-! ### non-vacuity -/
 
 private def argsN (n : Nat) : Args :=
   { n := n, raNaN := fun _ => false, intOk := fun _ => true, uintOk := fun _ => true, digp := false,
-    dig := fun _ => false, d0 := fun _ => false, h0 := fun _ => false }
+    dig := fun _ => false, d0 := fun _ => false, h0 := fun _ => false, raInt := fun _ => 2 }
 private def quiet : Oracle := { dval := fun _ _ => false, hval := fun _ _ => false, rval := fun _ => false, cond := fun _ => false }
 private def nanHes : Oracle := { quiet with hval := fun _ _ => true }
 private def gslFails : Oracle := { quiet with cond := fun _ => true }
@@ -173,5 +260,38 @@ example : disciplined (.seq (.ite .opq .ret0 .skip) .retCheck) 1 = false := by d
 /-- a binding that drops `check_const_arg` (writes only d/dx of f(nu, x)) is rejected -/
 example : disciplined (.seq (.ite .derivs (.wd (.k 1)) .skip) .retCheck) 2 = false := by decide
 example : disciplined (.seq (.ite (.and .derivs (.chk (.constArg (.k 0)))) (.seq (.wd (.k 1)) (.ite .hes (.wh (.k 2)) .skip)) .skip) .retCheck) 2 = true := by decide
+
+/-! #### one concrete, non-trivial instance of the hypotheses of every theorem above -/
+-- C16_discipline_sound / C16_registered_no_silent_nan_partial: a registered entry, disciplined, a.n = nargs, and a run without error
+example : disciplined sk_amplgsl_hypot 2 = true := by decide
+example : (⟨"gsl_hypot", 2, false, sk_amplgsl_hypot⟩ : Entry) ∈ registered := by decide
+example : (argsN 2).n = 2 ∧ (run sk_amplgsl_hypot quiet (argsN 2) ⟨true, true⟩).err = none ∧ (argsN 2).const 0 = false := by decide
+-- … and one with a constant argument declared through dig (Bessel J_n: order constant, derivative w.r.t. x delivered)
+private def argsDig : Args := { argsN 2 with digp := true, dig := fun i => i == 0 }
+example : argsDig.const 0 = true ∧ argsDig.const 1 = false ∧
+    (run sk_amplgsl_sf_bessel_Jn { quiet with cond := fun _ => true } argsDig ⟨true, true⟩).err = none ∧
+    (run sk_amplgsl_sf_bessel_Jn { quiet with cond := fun _ => true } argsDig ⟨true, true⟩).wd 1 = true ∧
+    (run sk_amplgsl_sf_bessel_Jn { quiet with cond := fun _ => true } argsDig ⟨true, true⟩).wh (hesIdx 1 1) = true := by decide
+-- C16_int_arg_derivative_is_error: accepted integer argument, derivatives requested, not constant
+example : (checkIntArg (argsN 2) ⟨true, false⟩ 0 (St.init (argsN 2))).1 = true ∧
+          (checkIntArg (argsN 2) ⟨true, false⟩ 0 (St.init (argsN 2))).2.err = some .deriv := by decide
+-- C16_zero_func_derivative_is_error
+example : (checkZeroFuncArgs argsDig ⟨true, false⟩ 0 (St.init argsDig)).1 = true ∧
+          (checkZeroFuncArgs argsDig ⟨true, false⟩ 0 (St.init argsDig)).2.err = some .deriv := by decide
+-- C16_failed_check_sets_error: a failing check (NaN argument)
+example : (evalChk quiet { argsN 2 with raNaN := fun i => i == 1 } ⟨false, false⟩ [] .args (St.init (argsN 2))).1 = false := by decide
+-- C16_status_checked: a registered binding that calls a `_e` routine
+example : (⟨"gsl_sf_bessel_Yn", 2, false, sk_amplgsl_sf_bessel_Yn⟩ : Entry) ∈ registered := by decide
+-- C16_gen_check_const_arg: the index hypothesis; C16_bessel_order_in_range: an accepted order with the Hessian requested, and rejected extremes
+example : (1 : Nat) < (argsN 2).n := by decide
+example : (checkBesselArgs argsDig ⟨true, true⟩ false (St.init argsDig)).1 = true := by decide
+example : (checkBesselArgs { argsDig with raInt := fun _ => intMax } ⟨true, false⟩ false (St.init argsDig)).1 = false ∧
+          (checkBesselArgs { argsDig with raInt := fun _ => intMax - 1 } ⟨true, true⟩ false (St.init argsDig)).1 = false ∧
+          (checkBesselArgs { argsDig with raInt := fun _ => intMin } ⟨true, false⟩ true (St.init argsDig)).1 = true ∧
+          (checkBesselArgs { argsDig with raInt := fun _ => intMin } ⟨true, false⟩ false (St.init argsDig)).1 = false := by decide
+-- the generated helper bodies really run: check_result on a state with a NaN Hessian entry, check_args on a NaN argument
+example : (hrun h_check_result (argsN 2) ⟨true, true⟩ (parRes false) { St.init (argsN 2) with h := fun i => i == 2 }).2.err = some .hnan := by decide
+example : (hrun h_check_args { argsN 3 with raNaN := fun i => i == 2 } ⟨false, false⟩ {} (St.init (argsN 3))).1 = false ∧
+          (hrun h_check_args { argsN 3 with raNaN := fun i => i == 2 } ⟨false, false⟩ {} (St.init (argsN 3))).2.err = some .eval := by decide
 
 end MpVerif.C16
